@@ -636,6 +636,12 @@ class Scheduler:
                     # State is None if this is not the main thread
                     return JobState.ERROR
 
+                if state == JobState.WAITING and job.unsatisfied == 0:
+                    # The dependencies became available while the start was
+                    # being aborted: try again
+                    state = JobState.READY
+                    job._readyEvent.set()
+
                 job.state = state
 
         for listener in self.listeners:
